@@ -21,6 +21,7 @@ import (
 	"github.com/orda-io/orda/client/pkg/model"
 	"github.com/orda-io/orda/client/pkg/operations"
 	"github.com/orda-io/orda/client/pkg/orda"
+	"github.com/orda-io/orda/server/constants"
 	"github.com/orda-io/orda/server/managers"
 	"github.com/orda-io/orda/server/mongodb"
 	"github.com/orda-io/orda/server/notification"
@@ -117,25 +118,26 @@ type wdt struct {
 }
 
 type wworld struct {
-	c        *Ctx
-	e        *wenv
-	kind     string
-	cols     []string
-	clients  []*wclient
-	dts      []*wdt
-	evs      []string
-	desc     []string
-	cur      string
-	nontriv  bool
-	pubSeen  int
-	dirty    bool // an accepted mutated request happened: the quiescence oracle does not apply
-	dbfault  bool // a storage command was made to fail: leftovers beyond the end of a log are tolerated by the store oracle
-	snapSeen map[string]bool
-	jobs     []wjob
-	realVer  map[string]uint64
-	base     int  // goroutines before the last request was sent
-	snapOff  bool // a storage fault hit the post-response work: the next digest tells the checker to adopt the observed snapshots
-	faulty   bool // a message fault (duplicated request / dropped response) happened: quiescence is judged under C07
+	c          *Ctx
+	e          *wenv
+	kind       string
+	cols       []string
+	clients    []*wclient
+	dts        []*wdt
+	evs        []string
+	desc       []string
+	cur        string
+	nontriv    bool
+	pubSeen    int
+	dirty      bool // an accepted mutated request happened: the quiescence oracle does not apply
+	dbfault    bool // a storage command was made to fail: leftovers beyond the end of a log are tolerated by the store oracle
+	snapSeen   map[string]bool
+	jobs       []wjob
+	concurrent bool // requests were served concurrently: quiescence is judged under C12
+	realVer    map[string]uint64
+	base       int  // goroutines before the last request was sent
+	snapOff    bool // a storage fault hit the post-response work: the next digest tells the checker to adopt the observed snapshots
+	faulty     bool // a message fault (duplicated request / dropped response) happened: quiescence is judged under C07
 }
 
 func (w *wworld) newClient(col string) *wclient {
@@ -381,18 +383,28 @@ func (w *wworld) dbDigest() dbView {
 }
 
 // ---------- C11 oracle: stored snapshots and user documents equal the replay of the log up to their version ----------
+var replayWhy string
+
 func (w *wworld) replayTo(duid, key string, kind model.TypeOfDatatype, v uint64) (iface.Datatype, bool) {
+	replayWhy = ""
 	cl := orda.NewClient(orda.NewLocalClientConfig("oracle"), "oracle")
 	dt := cl.CreateDatatype(key, kind, nil).(iface.Datatype)
 	dt.SetDUID(duid)
 	if v == 0 {
 		return dt, true
 	}
-	ops, _, err := w.e.mgr.Mongo.GetOperations(w.e.ctx, duid, 1, v)
+	// (GetOperations drops its upper bound — the filter it builds for `to` is discarded; every caller in the server
+	// passes "infinity", so the range is cut here)
+	ops, sseqs, err := w.e.mgr.Mongo.GetOperations(w.e.ctx, duid, 1, constants.InfinitySseq)
+	for len(sseqs) > 0 && sseqs[len(sseqs)-1] > v {
+		ops, sseqs = ops[:len(ops)-1], sseqs[:len(sseqs)-1]
+	}
 	if err != nil || uint64(len(ops)) != v {
+		replayWhy = fmt.Sprintf("the store returns %d operations for the range 1..%d (error: %v)", len(ops), v, err)
 		return nil, false
 	}
 	if _, err := dt.ReceiveRemoteModelOperations(ops, false); err != nil {
+		replayWhy = "applying them fails: " + err.Error()
 		return nil, false
 	}
 	return dt, true
@@ -453,7 +465,7 @@ func (w *wworld) checkSnapshots() {
 		}
 		want, ok := w.replayTo(di.duid, di.key, di.kind, v)
 		if !ok {
-			w.c.Violate("C11", "snapshot-version-not-replayable", fmt.Sprintf("snapshot %s: operations 1..%d cannot be replayed", id, v), w.desc)
+			w.c.Violate("C11", "snapshot-version-not-replayable", fmt.Sprintf("snapshot %s: operations 1..%d cannot be replayed: %s", id, v, replayWhy), w.desc)
 			continue
 		}
 		var raw []byte
@@ -918,6 +930,10 @@ func (w *wworld) sync(x *wdt, fault int) {
 
 // applyHeld delivers a response that was held back (a delayed answer), or a second answer, to the client
 func (w *wworld) applyResp(x *wdt, resp *model.PushPullPack, why string) {
+	w.applyRespAs(x, resp, why, true)
+}
+
+func (w *wworld) applyRespAs(x *wdt, resp *model.PushPullPack, why string, fault bool) {
 	r := x.rep
 	ns, ne := x.h.snapshot()
 	wasDue := r.dt.GetState() != model.StateOfDatatype_SUBSCRIBED
@@ -960,8 +976,10 @@ func (w *wworld) applyResp(x *wdt, resp *model.PushPullPack, why string) {
 		gStr(r.dt.GetDUID()), gN(curS), gN(curC), v, sz)
 	w.evs = append(w.evs, fmt.Sprintf("WApply %s %s %s", gNat(x.idx), gPpp(resp), aobs))
 	w.desc = append(w.desc, fmt.Sprintf("dt%d receives a %s (cp %s, %d ops)", x.idx, why, resp.CheckPoint.ToString(), len(resp.Operations)))
-	w.c.Count("ev-late-response")
-	w.faulty = true
+	if fault {
+		w.c.Count("ev-late-response")
+		w.faulty = true
+	}
 }
 
 // resendAndApply: the request that was just answered is delivered to the server a second time and the
@@ -1311,6 +1329,9 @@ func (w *wworld) quiesce() {
 		return
 	}
 	prop := "C05"
+	if w.concurrent {
+		prop = "C12"
+	}
 	if w.faulty {
 		prop = "C07"
 	}
